@@ -154,20 +154,15 @@ theorem count_flatTPs_mergeSort (l : List (String × List Nat)) (le : String × 
     List.count x (flatTPs (sortBy le l)) = List.count x (flatTPs l) :=
   ((sortBy_perm l le).flatMap_right _).count_eq x
 
+/-- a claim that may be kept by member `m`: it subscribes to the topic and the partition exists. -/
+def ValidClaim (snap : List (String × Nat)) (m : KMember) (tp : TP) : Prop :=
+  m.subs.contains tp.1 = true ∧ (snap.lookup tp.1).isSome = true ∧ tp.2 < cnt snap tp.1
+
 /-- what `kPerMember` guarantees for every entry. -/
 def PerOK (ms : List KMember) (snap : List (String × Nat))
     (per : List (KMember × List (String × List Nat) × List (String × List Nat) × List TP)) : Prop :=
-  ∀ e ∈ per, e.1 ∈ ms ∧ e.2.1 = kKept snap e.1 ∧
+  ∀ e ∈ per, e.1 ∈ ms ∧ (∀ tp ∈ flatTPs e.2.1, ValidClaim snap e.1 tp) ∧
     ∀ x, List.count x (flatTPs e.2.2.1) + List.count x e.2.2.2 = List.count x (flatTPs e.2.1)
-
-theorem kPerMember_ok (ms : List KMember) (snap : List (String × Nat)) (allowedOf : Nat → Nat) :
-    PerOK ms snap (kPerMember ms snap allowedOf) := by
-  intro e he
-  unfold kPerMember at he
-  obtain ⟨im, him, rfl⟩ := List.mem_map.mp he
-  refine ⟨(List.of_mem_zip him).2, rfl, fun x => ?_⟩
-  simp only []
-  rw [kShed_count, count_flatTPs_mergeSort]
 
 theorem mem_flatTPs (l : List (String × List Nat)) (tp : TP) :
     tp ∈ flatTPs l ↔ ∃ e ∈ l, e.1 = tp.1 ∧ tp.2 ∈ e.2 := by
@@ -354,12 +349,12 @@ theorem kFinish_valid (ms : List KMember) (snap : List (String × Nat))
     obtain ⟨e, he, hxe⟩ := List.mem_flatMap.mp hx
     obtain ⟨tp, htp, rfl⟩ := List.mem_map.mp hxe
     obtain ⟨hm, hk, hc⟩ := hper e he
-    have : tp ∈ flatTPs (kKept snap e.1) := by
-      rw [← hk, ← List.count_pos_iff]
+    have : tp ∈ flatTPs e.2.1 := by
+      rw [← List.count_pos_iff]
       have := hc tp
       have := List.count_pos_iff.mpr htp
       omega
-    obtain ⟨k1, k2, k3⟩ := mem_kKept snap e.1 tp this
+    obtain ⟨k1, k2, k3⟩ := hk tp this
     exact ⟨e.1, hm, rfl, k1, k2, k3⟩
   have hSsub : ∀ tp ∈ S, tp ∈ kAllTPs ms snap := by
     intro tp htp
@@ -437,27 +432,140 @@ theorem kCompute_range_valid (ms0 : List KMember) (snap : List (String × Nat)) 
   · simp only [beq_self_eq_true, if_true]
     exact kAssignRange_valid _ snap
 
-theorem nodup_of_all_count_one (l : List TP) (h : (l.all fun tp => l.count tp == 1) = true) : l.Nodup := by
-  rw [List.nodup_iff_count]
-  intro a
-  by_cases ha : a ∈ l
-  · have := List.all_eq_true.mp h a ha
-    simp only [beq_iff_eq] at this
-    omega
-  · have := List.count_eq_zero.mpr ha
-    omega
+/-! ### step 1 of the repaired assignUniform: nothing is kept twice -/
 
-theorem kPerMember_kept (ms : List KMember) (snap : List (String × Nat)) (allowedOf : Nat → Nat) :
-    ((kPerMember ms snap allowedOf).flatMap fun x => flatTPs x.2.1) = ms.flatMap fun m => flatTPs (kKept snap m) := by
+theorem keepParts_spec (ok : Nat → Bool) (t : String) (seen : List TP) (ps : List Nat) :
+    ((keepParts ok t seen ps).1.map fun p => ((t, p) : TP)).Nodup ∧
+    (∀ p ∈ (keepParts ok t seen ps).1, ok p = true ∧ ((t, p) : TP) ∉ seen) ∧
+    (∀ x, x ∈ (keepParts ok t seen ps).2 ↔ x ∈ seen ∨ x ∈ (keepParts ok t seen ps).1.map fun p => ((t, p) : TP)) := by
+  induction ps generalizing seen with
+  | nil => simp [keepParts]
+  | cons p ps ih =>
+    unfold keepParts
+    by_cases h : (ok p && !seen.contains (t, p)) = true
+    · simp only [h, if_true]
+      obtain ⟨i1, i2, i3⟩ := ih ((t, p) :: seen)
+      simp only [Bool.and_eq_true, Bool.not_eq_true'] at h
+      have hns : ((t, p) : TP) ∉ seen := fun hm => by
+        have := List.contains_iff_mem.mpr hm; rw [h.2] at this; exact Bool.noConfusion this
+      refine ⟨?_, ?_, ?_⟩
+      · simp only [List.map_cons]
+        refine List.nodup_cons.mpr ⟨?_, i1⟩
+        intro hm
+        obtain ⟨q, hq, e⟩ := List.mem_map.mp hm
+        have hqp : q = p := by injection e with _ e2
+        exact (i2 q hq).2 (by rw [hqp]; exact List.mem_cons_self)
+      · intro q hq
+        rcases List.mem_cons.mp hq with rfl | hq
+        · exact ⟨h.1, hns⟩
+        · exact ⟨(i2 q hq).1, fun hm => (i2 q hq).2 (List.mem_cons_of_mem _ hm)⟩
+      · intro x
+        rw [i3 x]
+        simp only [List.mem_cons, List.map_cons]
+        constructor
+        · rintro ((h1 | h1) | h1)
+          · exact Or.inr (Or.inl h1)
+          · exact Or.inl h1
+          · exact Or.inr (Or.inr h1)
+        · rintro (h1 | h1 | h1)
+          · exact Or.inl (Or.inr h1)
+          · exact Or.inl (Or.inl h1)
+          · exact Or.inr h1
+    · simp only [h, Bool.false_eq_true, if_false]
+      exact ih seen
+
+theorem keepEntries_spec (snap : List (String × Nat)) (m : KMember) (seen : List TP) (es : List (String × List Nat)) :
+    (flatTPs (keepEntries snap m seen es).1).Nodup ∧
+    (∀ tp ∈ flatTPs (keepEntries snap m seen es).1, ValidClaim snap m tp ∧ tp ∉ seen) ∧
+    (∀ x, x ∈ (keepEntries snap m seen es).2 ↔ x ∈ seen ∨ x ∈ flatTPs (keepEntries snap m seen es).1) := by
+  induction es generalizing seen with
+  | nil => simp [keepEntries, flatTPs]
+  | cons e es ih =>
+    unfold keepEntries
+    simp only []
+    generalize hr : keepParts (fun p => (snap.lookup e.1).isSome && p < cnt snap e.1 && m.subs.contains e.1) e.1 seen e.2 = r
+    obtain ⟨p1, p2, p3⟩ := keepParts_spec (fun p => (snap.lookup e.1).isSome && p < cnt snap e.1 && m.subs.contains e.1) e.1 seen e.2
+    rw [hr] at p1 p2 p3
+    obtain ⟨i1, i2, i3⟩ := ih r.2
+    have hflat : flatTPs (if r.1.isEmpty = true then (keepEntries snap m r.2 es).1 else (e.1, r.1) :: (keepEntries snap m r.2 es).1)
+        = (r.1.map fun p => ((e.1, p) : TP)) ++ flatTPs (keepEntries snap m r.2 es).1 := by
+      cases hk : r.1.isEmpty with
+      | true => simp [List.isEmpty_iff.mp hk]
+      | false => simp [flatTPs_cons]
+    rw [hflat]
+    refine ⟨?_, ?_, ?_⟩
+    · refine List.nodup_append.mpr ⟨p1, i1, ?_⟩
+      intro x hx y hy hxy
+      subst hxy
+      exact (i2 x hy).2 ((p3 x).mpr (Or.inr hx))
+    · intro tp htp
+      rcases List.mem_append.mp htp with h | h
+      · obtain ⟨q, hq, rfl⟩ := List.mem_map.mp h
+        have := p2 q hq
+        simp only [Bool.and_eq_true, decide_eq_true_eq] at this
+        exact ⟨⟨this.1.2, this.1.1.1, this.1.1.2⟩, this.2⟩
+      · exact ⟨(i2 tp h).1, fun hm => (i2 tp h).2 ((p3 tp).mpr (Or.inl hm))⟩
+    · intro x
+      rw [i3 x, p3 x, List.mem_append]
+      constructor
+      · rintro ((h | h) | h)
+        · exact Or.inl h
+        · exact Or.inr (Or.inl h)
+        · exact Or.inr (Or.inr h)
+      · rintro (h | h | h)
+        · exact Or.inl (Or.inl h)
+        · exact Or.inl (Or.inr h)
+        · exact Or.inr h
+
+theorem keepMembers_spec (snap : List (String × Nat)) (seen : List TP) (ms : List KMember) :
+    (keepMembers snap seen ms).length = ms.length ∧
+    ((keepMembers snap seen ms).flatMap flatTPs).Nodup ∧
+    (∀ tp ∈ (keepMembers snap seen ms).flatMap flatTPs, tp ∉ seen) ∧
+    (∀ mk ∈ ms.zip (keepMembers snap seen ms), ∀ tp ∈ flatTPs mk.2, ValidClaim snap mk.1 tp) := by
+  induction ms generalizing seen with
+  | nil => simp [keepMembers]
+  | cons m ms ih =>
+    obtain ⟨e1, e2, e3⟩ := keepEntries_spec snap m seen m.target
+    obtain ⟨i0, i1, i2, i3⟩ := ih (keepEntries snap m seen m.target).2
+    simp only [keepMembers, List.length_cons, i0, List.flatMap_cons, List.zip_cons_cons, true_and]
+    refine ⟨?_, ?_, ?_⟩
+    · refine List.nodup_append.mpr ⟨e1, i1, ?_⟩
+      intro x hx y hy hxy
+      subst hxy
+      exact i2 x hy ((e3 x).mpr (Or.inr hx))
+    · intro tp htp
+      rcases List.mem_append.mp htp with h | h
+      · exact (e2 tp h).2
+      · exact fun hm => i2 tp h ((e3 tp).mpr (Or.inl hm))
+    · intro mk hmk tp htp
+      rcases List.mem_cons.mp hmk with rfl | hmk
+      · exact (e2 tp htp).1
+      · exact i3 mk hmk tp htp
+
+theorem kPerMember_ok (ms : List KMember) (snap : List (String × Nat)) (seen : List TP) (allowedOf : Nat → Nat) :
+    PerOK ms snap (kPerMember ms (keepMembers snap seen ms) allowedOf) := by
+  intro e he
+  unfold kPerMember at he
+  obtain ⟨im, him, rfl⟩ := List.mem_map.mp he
+  have hz := (List.of_mem_zip him).2
+  refine ⟨(List.of_mem_zip hz).1, fun tp htp => (keepMembers_spec snap seen ms).2.2.2 im.2 hz tp htp, fun x => ?_⟩
+  simp only []
+  rw [kShed_count, count_flatTPs_mergeSort]
+
+theorem kPerMember_kept (ms : List KMember) (kept : List (List (String × List Nat))) (hl : kept.length = ms.length)
+    (allowedOf : Nat → Nat) :
+    ((kPerMember ms kept allowedOf).flatMap fun x => flatTPs x.2.1) = kept.flatMap flatTPs := by
   unfold kPerMember
   rw [List.flatMap_map]
-  have : ((indexFrom 0 ms).zip ms).flatMap (fun im => flatTPs (kKept snap im.2))
-      = (((indexFrom 0 ms).zip ms).map Prod.snd).flatMap fun m => flatTPs (kKept snap m) := by
-    rw [List.flatMap_map]
-  rw [this, List.map_snd_zip (by rw [length_indexFrom]; exact Nat.le_refl _)]
+  have : ((indexFrom 0 ms).zip (ms.zip kept)).flatMap (fun im => flatTPs im.2.2)
+      = ((((indexFrom 0 ms).zip (ms.zip kept)).map Prod.snd).map Prod.snd).flatMap flatTPs := by
+    rw [List.map_map, List.flatMap_map]; rfl
+  rw [this, List.map_snd_zip (by rw [length_indexFrom, List.length_zip]; omega),
+    List.map_snd_zip (by omega)]
 
+/-- `assignUniform` (as repaired in 31831e3) is valid for every input, conflicting prior targets included. -/
 theorem kCompute_uniform_valid (assignor : String) (hne : (assignor == "range") = false) (ms0 : List KMember)
-    (snap : List (String × Nat)) (hd : disjointPriors ms0 snap = true) :
+    (snap : List (String × Nat)) :
     validPlan (kSubsOf ms0) (cnt snap) (kCompute assignor ms0 snap) = true := by
   rw [← validPlan_perm _ _ (kSubsOf_perm assignor ms0)]
   unfold kCompute
@@ -468,9 +576,8 @@ theorem kCompute_uniform_valid (assignor : String) (hne : (assignor == "range") 
   · simp only [hne, Bool.false_eq_true, if_false]
     unfold kAssignUniform kAssignUniformParts
     simp only []
-    apply kFinish_valid _ snap _ (kPerMember_ok _ snap _)
-    rw [kPerMember_kept]
-    have hnd := nodup_of_all_count_one _ hd
-    exact ((kSortIDs_perm assignor _).flatMap_right _).nodup_iff.mpr hnd
+    apply kFinish_valid _ snap _ (kPerMember_ok _ snap [] _)
+    rw [kPerMember_kept _ _ (keepMembers_spec snap [] _).1]
+    exact (keepMembers_spec snap [] _).2.1
 
 end Proof.C25
